@@ -256,6 +256,14 @@ def history_case(ctx, h):
                              sig=dict(error=type(e).__name__, phase=phase))
                 table[(m, p, idx)] = (new_vin, new_vin * kcoef)
                 feats.add('alter_' + phase)
+                if phase != 'pre' or True:
+                    # another model holds a copy of this parameter (ExtParam): the copy was taken at set-up
+                    for om in ss.models.values():
+                        if om.n == 0 or om is mdl:
+                            continue
+                        for ep in om.params_ext.values():
+                            if ep.src == p and ep.model in (m, mdl.group):
+                                feats.add('altered_param_copied_by_%s' % om.class_name)
                 ctx.count('op:alter:' + phase + ':' + op['attr'] + ':' + op['via'])
             else:
                 new_v = float(par.v[uid]) * op['factor'] if par.v[uid] != 0 else 0.1
@@ -357,7 +365,7 @@ def history_case(ctx, h):
                     j = int(np.argmax(np.abs(x1 - x2) / (1 + np.abs(x2))))
                     ctx.fail('altered_run_differs_from_reloaded_run',
                              dict(history=h, max_rel_diff=d, state=ss.dae.x_name[j], altered=float(x1[j]), reloaded=float(x2[j])),
-                             sig=dict(kind='trajectory'))
+                             sig=dict(kind='trajectory', altered_param_copied_elsewhere=any(f.startswith('altered_param_copied_by_') for f in feats)))
         feats.add('sim')
     if any(f.startswith('alter_') for f in feats) and 'dump' in feats:
         ctx.nontrivial(dict(h=h), sample=dict(base=h['base'], ops=h['ops'][:8], features=sorted(feats)))
